@@ -88,6 +88,70 @@ func funcFieldKey(v ssa.Value) string {
 	return "funcfield:" + nt.Obj().Pkg().Path() + "." + nt.Obj().Name() + "." + st.Field(fa.Field).Name()
 }
 
+// callReqs: the `callreq` clauses of the function under contract that apply to this call site.
+func (ft *funcTrans) callReqs(in ssa.CallInstruction, com *ssa.CallCommon, name string, callNo int) {
+	st := ft.curSt
+	if ft.c != nil {
+		for k, cr := range ft.c.CallReqs {
+			want := cr.Callee
+			if i := strings.LastIndex(want, "#"); i > 0 && !strings.HasPrefix(want, "append") {
+				// "Callee#n": only the n-th call (in source order) of a callee with that name
+				n := 0
+				fmt.Sscanf(want[i+1:], "%d", &n)
+				want = want[:i]
+				if !strings.Contains(name, want) || ft.callOrdinal(want, in.Pos()) != n {
+					continue
+				}
+			}
+			if strings.Contains(name, want) {
+				ec := ft.localCtx(st)
+				// the actual arguments of this call: arg0.. (arg0 is the receiver of a method call)
+				{
+					k := 0
+					if com.IsInvoke() {
+						ec.env["arg0"] = ft.termOf(com.Value)
+						k = 1
+					}
+					for _, a := range com.Args {
+						if v := ft.valOf(a); v.L == nil && v.Tup == nil && v.Bad == "" {
+							ec.env[fmt.Sprintf("arg%d", k)] = v.T
+						}
+						k++
+					}
+				}
+				t := ec.evalBool(cr.C.E)
+				o := ft.obligation("callreq", fmt.Sprintf("call%d.%s.callreq%d", callNo, shortName(name), k+1), cr.C.Src, t.S)
+				o.Where = posStr(ft.p.SSA.Fset, in.Pos())
+			}
+		}
+	}
+}
+
+// callOrdinal: position (1-based, source order) of the call at pos among the calls of this function
+// whose callee name contains base.
+func (ft *funcTrans) callOrdinal(base string, pos token.Pos) int {
+	var sites []token.Pos
+	for _, b := range ft.fn.Blocks {
+		for _, in := range b.Instrs {
+			if ci, ok := in.(ssa.CallInstruction); ok {
+				if _, isB := ci.Common().Value.(*ssa.Builtin); isB {
+					continue
+				}
+				if strings.Contains(calleeName(ci.Common()), base) {
+					sites = append(sites, ci.Pos())
+				}
+			}
+		}
+	}
+	sort.Slice(sites, func(i, j int) bool { return sites[i] < sites[j] })
+	for i, p := range sites {
+		if p == pos {
+			return i + 1
+		}
+	}
+	return 0
+}
+
 func calleeName(com *ssa.CallCommon) string {
 	if k := funcFieldKey(com.Value); k != "" && com.StaticCallee() == nil && !com.IsInvoke() {
 		return k
@@ -112,6 +176,9 @@ func (ft *funcTrans) call(in ssa.CallInstruction, val *ssa.Call) {
 		return
 	}
 	callee := com.StaticCallee()
+	if ft.isXMLEncoderCall(com) {
+		ft.callReqs(in, com, calleeName(com), 0)
+	}
 	if ft.xmlEncoderCall(com, val) {
 		return
 	}
@@ -146,30 +213,7 @@ func (ft *funcTrans) call(in ssa.CallInstruction, val *ssa.Call) {
 	c := ft.calleeContract(com)
 	name := calleeName(com)
 	st := ft.curSt
-	if ft.c != nil {
-		for k, cr := range ft.c.CallReqs {
-			if strings.Contains(name, cr.Callee) {
-				ec := ft.localCtx(st)
-				// the actual arguments of this call: arg0.. (arg0 is the receiver of a method call)
-				{
-					k := 0
-					if com.IsInvoke() {
-						ec.env["arg0"] = ft.termOf(com.Value)
-						k = 1
-					}
-					for _, a := range com.Args {
-						if v := ft.valOf(a); v.L == nil && v.Tup == nil && v.Bad == "" {
-							ec.env[fmt.Sprintf("arg%d", k)] = v.T
-						}
-						k++
-					}
-				}
-				t := ec.evalBool(cr.C.E)
-				o := ft.obligation("callreq", fmt.Sprintf("call%d.%s.callreq%d", ft.nCalls, shortName(name), k+1), cr.C.Src, t.S)
-				o.Where = posStr(ft.p.SSA.Fset, in.Pos())
-			}
-		}
-	}
+	ft.callReqs(in, com, name, ft.nCalls)
 	inferredFrame := callee != nil && ft.p.writesOnlyFresh(callee)
 	if c == nil {
 		// unknown callee: result unconstrained; heap havocked unless the callee
